@@ -255,6 +255,25 @@ def param_space_packages(rng, n):
         m.i = NamedBy(s=txt)(a=m.s)
         m.j = NamedBy(s=txt, v=0.5)(a=m.s)
         out.append((f"dotted-name:{txt}", m))
+    # one declaration made twice (a function called twice gives two ExternalModule objects of one qualified name): one entry
+    def mk_ext(dom):
+        return h.ExternalModule(name="Twice", domain=dom, port_list=[h.Port(name="a"), h.Input(name="i", width=2)], paramtype=dict)
+    for dom in (None, "d"):
+        m = h.Module(name=f"ExtTwice{dom or ''}")
+        m.s, m.bus = h.Signal(), h.Signal(width=2)
+        m.i1 = mk_ext(dom)({})(a=m.s, i=m.bus)
+        m.i2 = mk_ext(dom)({"k": 1})(a=m.s, i=m.bus)
+        out.append((f"ext:declared-twice:{dom}", m))
+    # an external module declared in a domain the importer knows as its own, next to the real thing
+    for dom, name, ports in [("hdl21.primitives", "Mos", "dgsb"), ("hdl21.primitives", "NoSuch", "ab"), ("vlsir.primitives", "resistor", "pn"),
+                             ("hdl21.ideal", "IdealResistor", "pn")]:
+        E = h.ExternalModule(name=name, domain=dom, paramtype=dict, port_list=[h.Port(name=n) for n in ports])
+        m = h.Module(name=f"Priv_{name}")
+        m.s, m.t = h.Signals(2)
+        m.i = E({"w": 3})(**{n: m.s for n in ports})
+        m.r = h.R(r=1)(p=m.s, n=m.t)
+        m.mos = h.Mos(model="nch")(d=m.s, g=m.t, s=m.t, b=m.t)
+        out.append((f"ext:privileged-domain:{dom}.{name}", m))
     # modules defined outside any Python module (exec-ed source with fresh globals, as in a notebook cell or `python -c`)
     src = ("import hdl21 as h\n@h.module\nclass LeafX:\n    a = h.Port()\n    r = h.R(r=1)(p=a, n=a)\n"
            "@h.module\nclass TopX:\n    s = h.Signal()\n    l = LeafX(a=s)\n")
